@@ -180,4 +180,196 @@ def crcStates : List Call → UInt32 → List (Option UInt32)
     | some s' => some s' :: crcStates rest s'
     | none => [none]
 
+/-! ## 4. SSE2: `sha256_sse2.c`
+
+`__m128i` is four 32-bit lanes, `x0` = bits 31:0 (lowest address when stored).  Every immediate
+below is the literal of the current source; `Properties/C03.lean` (`gen_sse2_constants`) checks
+them against `Gen.CpuPaths` on every run. -/
+
+structure V4 where
+  x0 : UInt32
+  x1 : UInt32
+  x2 : UInt32
+  x3 : UInt32
+deriving DecidableEq, Repr
+
+namespace V4
+/-- lane `i mod 4` -/
+def get (a : V4) (i : Nat) : UInt32 :=
+  match i % 4 with
+  | 0 => a.x0
+  | 1 => a.x1
+  | 2 => a.x2
+  | _ => a.x3
+def map (f : UInt32 → UInt32) (a : V4) : V4 := ⟨f a.x0, f a.x1, f a.x2, f a.x3⟩
+def zip (f : UInt32 → UInt32 → UInt32) (a b : V4) : V4 := ⟨f a.x0 b.x0, f a.x1 b.x1, f a.x2 b.x2, f a.x3 b.x3⟩
+def lanes (a : V4) : List UInt32 := [a.x0, a.x1, a.x2, a.x3]
+end V4
+
+/-- `PSRLD`/`PSLLD` on one lane: a count above 31 gives 0 -/
+def shr32 (x : UInt32) (n : Nat) : UInt32 := if n < 32 then x >>> UInt32.ofNat n else 0
+def shl32 (x : UInt32) (n : Nat) : UInt32 := if n < 32 then x <<< UInt32.ofNat n else 0
+
+def mm_xor_si128 (a b : V4) : V4 := V4.zip (· ^^^ ·) a b
+def mm_or_si128 (a b : V4) : V4 := V4.zip (· ||| ·) a b
+def mm_add_epi32 (a b : V4) : V4 := V4.zip (· + ·) a b
+def mm_srli_epi32 (a : V4) (n : Nat) : V4 := V4.map (shr32 · n) a
+def mm_slli_epi32 (a : V4) (n : Nat) : V4 := V4.map (shl32 · n) a
+
+/-- `PSRLQ` on one 64-bit lane made of two 32-bit lanes `hi:lo`: the shift crosses the lane
+    boundary (bits of `hi` enter `lo`) — the `s1` trick of `sha256_sse2.c` depends on exactly that -/
+def srli64Lane (lo hi : UInt32) (n : Nat) : UInt32 × UInt32 :=
+  let q : UInt64 := (hi.toUInt64 <<< 32) ||| lo.toUInt64
+  let q' : UInt64 := if n < 64 then q >>> UInt64.ofNat n else 0
+  (q'.toUInt32, (q' >>> 32).toUInt32)
+
+def mm_srli_epi64 (a : V4) (n : Nat) : V4 :=
+  let p := srli64Lane a.x0 a.x1 n
+  let q := srli64Lane a.x2 a.x3 n
+  ⟨p.1, p.2, q.1, q.2⟩
+
+/-- `_mm_shuffle_epi32(a, _MM_SHUFFLE(z, y, x, w))`: `dst = (a[w], a[x], a[y], a[z])` from lane 0 up -/
+def mm_shuffle_epi32 (a : V4) (z y x w : Nat) : V4 := ⟨a.get w, a.get x, a.get y, a.get z⟩
+
+/-- `_mm_slli_si128(a, 8)`: byte shift left by 8 bytes = two lanes up, zeros enter -/
+def mm_slli_si128_8 (a : V4) : V4 := ⟨0, 0, a.x0, a.x1⟩
+/-- `_mm_srli_si128(a, 8)` -/
+def mm_srli_si128_8 (a : V4) : V4 := ⟨a.x2, a.x3, 0, 0⟩
+
+/-- `_mm_move_ss(a, b)` (through the `castsi128_ps` no-ops): lane 0 from `b`, the rest from `a` -/
+def mm_move_ss (a b : V4) : V4 := ⟨b.x0, a.x1, a.x2, a.x3⟩
+
+/-! `mm_bswap_epi32` uses 16-bit-lane shifts by 8 and 16-bit shuffles.  A shift of a 16-bit lane
+by exactly 8 moves one whole byte, so these four intrinsics are modelled on the register's sixteen
+bytes (little-endian: byte 0 = bits 7:0). -/
+
+/-- `_mm_slli_epi16(a, 8)`: in every 16-bit lane `(lo, hi)` ↦ `(0, lo)` -/
+def mm_slli_epi16_8 : Bytes → Bytes
+  | lo :: _ :: r => 0 :: lo :: mm_slli_epi16_8 r
+  | _ => []
+/-- `_mm_srli_epi16(a, 8)`: `(lo, hi)` ↦ `(hi, 0)` -/
+def mm_srli_epi16_8 : Bytes → Bytes
+  | _ :: hi :: r => hi :: 0 :: mm_srli_epi16_8 r
+  | _ => []
+def mm_or_bytes (a b : Bytes) : Bytes := List.zipWith (· ||| ·) a b
+
+/-- the 16-bit words `(w[w'], w[x], w[y], w[z])` of four words given as 8 bytes; `none` unless
+    there are exactly 8 bytes and the selectors are < 4 -/
+def shuffleWords (z y x w : Nat) : Bytes → Option Bytes
+  | [a0, a1, b0, b1, c0, c1, d0, d1] =>
+    let word (i : Nat) : Option Bytes :=
+      match i with
+      | 0 => some [a0, a1]
+      | 1 => some [b0, b1]
+      | 2 => some [c0, c1]
+      | 3 => some [d0, d1]
+      | _ => none
+    do let p ← word w; let q ← word x; let r ← word y; let t ← word z; pure (p ++ q ++ r ++ t)
+  | _ => none
+
+/-- `_mm_shufflelo_epi16(a, imm)`: shuffles the four low words, copies the high 8 bytes -/
+def mm_shufflelo_epi16 (a : Bytes) (z y x w : Nat) : Option Bytes :=
+  (shuffleWords z y x w (a.take 8)).map (· ++ a.drop 8)
+/-- `_mm_shufflehi_epi16(a, imm)` -/
+def mm_shufflehi_epi16 (a : Bytes) (z y x w : Nat) : Option Bytes :=
+  (shuffleWords z y x w (a.drop 8)).map (a.take 8 ++ ·)
+
+/-- the register with these sixteen bytes, as lanes -/
+def lanesOfBytes : Bytes → Option V4
+  | [a0, a1, a2, a3, b0, b1, b2, b3, c0, c1, c2, c3, d0, d1, d2, d3] =>
+    some ⟨le32 a0 a1 a2 a3, le32 b0 b1 b2 b3, le32 c0 c1 c2 c3, le32 d0 d1 d2 d3⟩
+  | _ => none
+
+/-- `mm_bswap_epi32(_mm_loadu_si128(p))` for the 16 bytes at `p` -/
+def loadBswap (p : Bytes) : Option V4 := do
+  let a := mm_or_bytes (mm_slli_epi16_8 p) (mm_srli_epi16_8 p)
+  let a ← mm_shufflelo_epi16 a 2 3 0 1
+  let a ← mm_shufflehi_epi16 a 2 3 0 1
+  lanesOfBytes a
+
+/-- `ROTR32(x, n) = _mm_or_si128(SHR32(x, n), _mm_slli_epi32(x, 32 - n))` -/
+def rotr32_128 (x : V4) (n : Nat) : V4 := mm_or_si128 (mm_srli_epi32 x n) (mm_slli_epi32 x (32 - n))
+
+/-- `s0_128(x)` -/
+def s0_128 (x : V4) : V4 :=
+  mm_xor_si128 (mm_xor_si128 (rotr32_128 x 7) (rotr32_128 x 18)) (mm_srli_epi32 x 3)
+
+/-- `s1_128_high(a)`: `s1` of lanes 0, 1 delivered in lanes 2, 3 -/
+def s1_128_high (a : V4) : V4 :=
+  let b := mm_shuffle_epi32 a 1 1 0 0
+  let c := mm_xor_si128 (mm_srli_epi64 b 17) (mm_srli_epi64 b 19)
+  let c := mm_xor_si128 c (mm_srli_epi32 b 10)
+  let c := mm_shuffle_epi32 c 2 0 2 0
+  mm_slli_si128_8 c
+
+/-- `s1_128_low(a)`: `s1` of lanes 2, 3 delivered in lanes 0, 1 -/
+def s1_128_low (a : V4) : V4 :=
+  let b := mm_shuffle_epi32 a 3 3 2 2
+  let c := mm_xor_si128 (mm_srli_epi64 b 17) (mm_srli_epi64 b 19)
+  let c := mm_xor_si128 c (mm_srli_epi32 b 10)
+  let c := mm_shuffle_epi32 c 2 0 2 0
+  mm_srli_si128_8 c
+
+/-- `SPAN_ONE_THREE(a, b)` -/
+def spanOneThree (a b : V4) : V4 := mm_shuffle_epi32 (mm_move_ss a b) 0 3 2 1
+
+/-- `MSG4(X0, X1, X2, X3)` -/
+def msg4 (X0 X1 X2 X3 : V4) : V4 :=
+  let xjMinusSeven := spanOneThree X2 X3
+  let xjMinusFifteen := spanOneThree X0 X1
+  let X4 := mm_add_epi32 X0 xjMinusSeven
+  let X4 := mm_add_epi32 X4 (s0_128 xjMinusFifteen)
+  let X4 := mm_add_epi32 X4 (s1_128_low X3)
+  mm_add_epi32 X4 (s1_128_high X4)
+
+/-- the four `Y` registers -/
+structure Y4 where
+  y0 : V4
+  y1 : V4
+  y2 : V4
+  y3 : V4
+
+def Y4.lanes (y : Y4) : List UInt32 := y.y0.lanes ++ y.y1.lanes ++ y.y2.lanes ++ y.y3.lanes
+
+/-- the schedule part of one iteration of the outer loop (`i = 0, 16, 32`): four `MSG4` calls, each
+    using the registers already replaced by the previous ones -/
+def msgStep (y : Y4) : Y4 :=
+  let y0 := msg4 y.y0 y.y1 y.y2 y.y3
+  let y1 := msg4 y.y1 y.y2 y.y3 y0
+  let y2 := msg4 y.y2 y.y3 y0 y1
+  let y3 := msg4 y.y3 y0 y1 y2
+  ⟨y0, y1, y2, y3⟩
+
+/-- the four loads of `SHA256_Transform_sse2`; `none` unless the block has 64 bytes -/
+def loadBlock (block : Bytes) : Option Y4 :=
+  if block.length ≠ 64 then none else do
+    let y0 ← loadBswap (block.take 16)
+    let y1 ← loadBswap ((block.drop 16).take 16)
+    let y2 ← loadBswap ((block.drop 32).take 16)
+    let y3 ← loadBswap ((block.drop 48).take 16)
+    pure ⟨y0, y1, y2, y3⟩
+
+/-- the array `W[0..63]` as `SHA256_Transform_sse2` leaves it -/
+def sse2W (block : Bytes) : Option (List UInt32) :=
+  (loadBlock block).map fun y =>
+    let a := msgStep y
+    let b := msgStep a
+    let c := msgStep b
+    y.lanes ++ a.lanes ++ b.lanes ++ c.lanes
+
+/-- `SHA256_Transform_sse2(state, block, W, S)`.  The 64 rounds (`RNDr` over `S`, `W`, `Krnd`) and
+    the final `state[i] += S[i]` are textually the portable file's (`Gen.sse2RoundCodeSameAsPortable`,
+    `Gen.sse2K`), i.e. `Spec.Sha256.rounds`/`addRegs` up to C01's macro-structure theorem; they read
+    `W` only, so the interleaving of rounds and schedule in the C loop does not matter. -/
+def transformSse2 (state : Sha256.Regs) (block : Bytes) : Option Sha256.Regs :=
+  (sse2W block).map fun W => Sha256.addRegs state (Sha256.rounds state W)
+
+/-- consecutive `SHA256_Transform_sse2` calls over a list of blocks -/
+def absorbSse2 : Sha256.Regs → List Bytes → Option Sha256.Regs
+  | s, [] => some s
+  | s, b :: rest =>
+    match transformSse2 s b with
+    | some s' => absorbSse2 s' rest
+    | none => none
+
 end Percival.Model.CpuPaths
